@@ -6,6 +6,7 @@ CONSTANTS
   MaxN = 4
   ScratchSize = "code"
   Finished = "last"
+  GrowLoop = "while"
   EarlyExit = TRUE
 INVARIANT CodesOk
 INVARIANT Refines
